@@ -1,5 +1,5 @@
 (* C04 — split_batch_for_grpc_response: the pieces are non-empty, in order, and concatenate to the batch. *)
-From Coq Require Import List Arith Lia Bool.
+From Coq Require Import List Arith NArith Lia Bool.
 From AV Require Import Model.C04_Flight.
 Import ListNotations.
 
@@ -50,7 +50,7 @@ Qed.
 
 (* every piece has at most rows_per_batch rows, and when the batch is at least n_batches rows long the number of
    pieces is at least n_batches (each piece then targets size / n_batches bytes) *)
-Theorem flight_split_piece_bound (num_rows size max : nat) :
+Theorem flight_split_piece_bound (num_rows : nat) (size max : N) :
   Forall (fun p => snd p <= rows_per_batch num_rows (n_batches size max)) (split num_rows size max).
 Proof.
   unfold split.
